@@ -10,7 +10,10 @@ from geneticengine.grammar.grammar import extract_grammar
 from geneticengine.grammar.metahandlers.ints import IntRange
 from geneticengine.grammar.metahandlers.strings import WeightedStringHandler
 
-MATRIX = np.array([[0.5, 0.25, 0.25, 0.0], [0.125, 0.125, 0.25, 0.5], [0.25, 0.25, 0.25, 0.25], [0.0, 0.0, 0.5, 0.5]])
+# (the last two positions carry no information: an all-zero row and a row whose total is below the chooser's resolution -- the
+# letter is then drawn uniformly, from the same source as every other decision)
+MATRIX = np.array([[0.5, 0.25, 0.25, 0.0], [0.125, 0.125, 0.25, 0.5], [0.25, 0.25, 0.25, 0.25], [0.0, 0.0, 0.5, 0.5],
+                   [0.0, 0.0, 0.0, 0.0], [1e-7, 2e-7, 0.0, 1e-7]])
 HANDLER = WeightedStringHandler(MATRIX, ["A", "C", "G", "T"])
 
 
